@@ -255,8 +255,10 @@ class SymH:
     def note(self, s):
         self.notes.append(s)
 
-    def policy(self, gather=None, sort=None, search=None, nonlinear=None, fold=None, mult_cap=None, fp_kernel=None):
+    def policy(self, gather=None, sort=None, search=None, nonlinear=None, fold=None, mult_cap=None, fp_kernel=None, rng_pinned=None):
         self.np.set_policy(gather=gather, sort=sort, search=search, fold=fold)
+        if rng_pinned is not None:
+            self.np.random.PINNED[0] = bool(rng_pinned)
         if fp_kernel is not None:
             from . import rt as _rt
 
@@ -467,7 +469,8 @@ class ConcH:
         return self.tape
 
     def rng_log(self):
-        return []
+        t = getattr(self, "tape", None)
+        return list(t.log) if t is not None else []
 
     def track_int64(self, on=True):
         pass
@@ -496,6 +499,7 @@ class Tape:
     def __init__(self, witness):
         self.w = witness
         self.n = {}
+        self.log = []       # same shape as Explorer.rng_log: {"fn", "args"} (concrete), so call-sequence obligations replay
 
     def _next(self, tag, default):
         k = self.n.get(tag, 0)
@@ -505,6 +509,8 @@ class Tape:
 
     def binomial(self, n, p, size=None):
         import numpy as np
+
+        self.log.append({"fn": "binomial", "args": {"size": size}})
 
         def one():
             v = int(self._next("binomial", 0))
@@ -517,6 +523,7 @@ class Tape:
     def poisson(self, lam=1.0, size=None):
         import numpy as np
 
+        self.log.append({"fn": "poisson", "args": {"size": size}})
         one = lambda: max(0, int(self._next("poisson", 0)))
         if size is None:
             return one()
@@ -528,6 +535,7 @@ class Tape:
         pop = None if isinstance(a, (int, np.integer)) else np.asarray(a)
         n = int(a) if pop is None else len(pop)
         k = 1 if size is None else int(np.prod(size))
+        self.log.append({"fn": "choice", "args": {"size": size, "replace": replace}})
         if n == 0 and k > 0:
             raise ValueError("a cannot be empty unless no samples are taken")
         if not replace and k > n:
@@ -548,6 +556,7 @@ class Tape:
     def normal(self, loc=0.0, scale=1.0, size=None):
         import numpy as np
 
+        self.log.append({"fn": "normal", "args": {"size": size}})
         one = lambda: float(Fraction(self._next("normal", 0)))
         if size is None:
             return one()
@@ -555,6 +564,7 @@ class Tape:
 
     def shuffle(self, x, axis=0):
         n = len(x)
+        self.log.append({"fn": "shuffle", "args": {"n": n}})
         pos = []
         for j in range(n):
             v = max(0, min(n - 1, int(self._next("shuffle", j))))
@@ -885,6 +895,7 @@ class Runner:
 
             snp.set_policy(gather="ite", sort="ite", search="auto", fold=False)
             snp.random.MULT_CAP[0] = None
+            snp.random.PINNED[0] = False
             from . import rt as _rt
 
             _rt.FP_MODE[0] = False
